@@ -232,7 +232,7 @@ with cond_body (fuel : nat) (negate : bool) : M (rr (option expr)) :=
         dom lx <- next_lexem ;;
         match lx with
         | Some (Operator x) =>
-            if str_eqb x (s "between") then
+            if str_eqb (ascii_lower x) (s "between") then
               dom lb_r <- parse_add_sub k ;;
               match lb_r with RErr e => ret (RErr e) | ROk left_between =>
                 dom and_lexem <- next_lexem ;;
@@ -503,7 +503,7 @@ Fixpoint root_options_loop (fuel : nat) (mode : ro_mode) (o : root_options) : M 
             end
         end
     | Some (Operator x) =>
-        if str_eqb x (s "rx") then root_options_loop k ROOptions (ro_set_regexp o)
+        if str_eqb (ascii_lower x) (s "rx") then root_options_loop k ROOptions (ro_set_regexp o)
         else dom _ <- drop_lexem ;; ret (mode, o)
     | Some _ => dom _ <- drop_lexem ;; ret (mode, o)
     | None => ret (mode, o)
